@@ -112,6 +112,9 @@ pub fn decode(data: &[u8], prof: &Profile) -> Scenario {
     let mut src = Src::new(data);
     let raw_feat = (src.u8() as u16) | ((src.u8() as u16) << 8);
     let feat = (raw_feat | prof.force_on) & !prof.force_off;
+    // motif selection at a fixed position of the stream (stable under libFuzzer mutations)
+    let mb = src.u8();
+    let mv = src.u8();
     let n = 2 + src.below(prof.max_slots.saturating_sub(1).max(1));
     let cfg = Config {
         scope: if feat & F_CONSUMED != 0 { Scope::Consumed } else { Scope::Whole },
@@ -242,8 +245,6 @@ pub fn decode(data: &[u8], prof: &Profile) -> Scenario {
         });
     }
     let mut sc = Scenario { cfg, slots, init, steps };
-    let mb = src.u8();
-    let mv = src.u8();
     if (255 - mb as u16) < prof.p_motif {
         plant_motif(&mut sc, mb, mv);
     }
